@@ -36,25 +36,42 @@ def check(ctx):
         fn = repo.fn(f"{DF}.{name}")
         s0 = fn.params[0]
         n_exp += 1
-        subs = [n for n in body_nodes(fn.node) if isinstance(n, ast.Subscript) and norm(n.value) == s0 and isinstance(n.ctx, ast.Load)]
-        raw = []
-        for sub in subs:
-            par = fn.module.parent.get(sub)
-            through = isinstance(par, ast.Attribute) and par.attr == "tolist" and isinstance(fn.module.parent.get(par), ast.Call)
-            if not through:
-                raw.append(sub)
-        others = [n for n in body_nodes(fn.node) if isinstance(n, ast.Call) and isinstance(n.func, ast.Attribute)
-                  and n.func.attr in ("items", "values", "columns") and norm(n.func.value) == s0]
-        cols_attr = [n for n in body_nodes(fn.node) if isinstance(n, ast.Attribute) and n.attr == "columns" and norm(n.value) == s0]
+        # the exporter itself and module-level helpers it hands the frame to (one level)
+        scopes = [(fn, s0)]
+        for f_, c_ in calls_in(fn):
+            r_ = repo.resolve_call(f_, c_)
+            if r_[0] == "pkg" and len(r_[1]) == 1 and r_[1][0].cls is None:
+                for k_, a_ in enumerate(c_.args):
+                    if isinstance(a_, ast.Name) and a_.id == s0 and k_ < len(r_[1][0].params):
+                        scopes.append((r_[1][0], r_[1][0].params[k_]))
+        subs, raw, others, cols_attr = [], [], [], []
+        for g_, p0 in scopes:
+            for sub in [n for n in body_nodes(g_.node) if isinstance(n, ast.Subscript) and norm(n.value) == p0 and isinstance(n.ctx, ast.Load)]:
+                subs.append((g_, sub))
+                par = g_.module.parent.get(sub)
+                through = isinstance(par, ast.Attribute) and par.attr == "tolist" and isinstance(g_.module.parent.get(par), ast.Call)
+                if not through and isinstance(par, ast.Assign) and len(par.targets) == 1 and isinstance(par.targets[0], ast.Name):
+                    # column = self[name]; ... column.tolist() : every use of the temporary is a tolist() call
+                    tname = par.targets[0].id
+                    loads = [n for n in body_nodes(g_.node) if isinstance(n, ast.Name) and n.id == tname and isinstance(n.ctx, ast.Load)]
+                    through = bool(loads) and all(
+                        isinstance(g_.module.parent.get(n), ast.Attribute) and g_.module.parent.get(n).attr == "tolist"
+                        and isinstance(g_.module.parent.get(g_.module.parent.get(n)), ast.Call) for n in loads)
+                if not through:
+                    raw.append(sub)
+            others += [n for n in body_nodes(g_.node) if isinstance(n, ast.Call) and isinstance(n.func, ast.Attribute)
+                       and n.func.attr in ("items", "values", "columns") and norm(n.func.value) == p0]
+            cols_attr += [n for n in body_nodes(g_.node) if isinstance(n, ast.Attribute) and n.attr == "columns" and norm(n.value) == p0]
         ok = bool(subs) and not raw and not others and not cols_attr
-        ctx.ob("TNT-tolist", fn, f"columns leave through {[norm(fn.module.parent.get(s)) for s in subs]}", fn.node, ok,
+        ctx.ob("TNT-tolist", fn, f"columns leave through {[norm(g_.module.parent.get(s_)) for g_, s_ in subs]}", fn.node, ok,
                "every column is exported as tolist() output: missing values cross the boundary as None" if ok else
                f"a column reaches the foreign constructor without Vector.tolist ({[norm(x) for x in raw + others + cols_attr]}): "
                f"missing values are exported as sentinel values (NaN / '' / NaT) instead of nulls",
                clause="missing values cross each boundary as that format's null, never as a sentinel value")
         it = [g.iter for n in ast.walk(fn.node) if isinstance(n, (ast.ListComp, ast.DictComp)) for g in n.generators] + \
              [n.iter for n in ast.walk(fn.node) if isinstance(n, ast.For)]
-        ok = any(norm(i) == f"{s0}.colnames" for i in it)
+        it += [n.iter for g_, p0 in scopes[1:] for n in ast.walk(g_.node) if isinstance(n, ast.For)]
+        ok = any(norm(i) in (f"{s0}.colnames",) + tuple(f"{p0}.colnames" for _, p0 in scopes) for i in it)
         ctx.ob("TNT-tolist", fn, "one field per column, in colnames order", fn.node, ok,
                "all columns are exported in order" if ok else "exporter does not iterate self.colnames", nontrivial=False,
                clause="same column names and order")
@@ -62,11 +79,24 @@ def check(ctx):
     ta = repo.fn(f"{DF}.to_arrow")
     tbl = [c for _, c in calls_in(ta) if repo.dotted(ta, c.func) == "pyarrow.table"]
     ok = bool(tbl) and kw(tbl[0], "names") is not None and norm(kw(tbl[0], "names")) == f"{ta.params[0]}.colnames"
+    if tbl and not ok and isinstance(kw(tbl[0], "names"), ast.Name) and tbl[0].args and isinstance(tbl[0].args[0], ast.Name):
+        # names collected alongside the arrays, in the same loop over self.colnames
+        from ..forms import contributions, resolved_text
+        cn = contributions(ta, kw(tbl[0], "names").id)
+        ca = contributions(ta, tbl[0].args[0].id)
+        ok = bool(cn) and bool(ca) and all(
+            c["iter"] is not None and norm(c["iter"]) == f"{ta.params[0]}.colnames" and not c["conds"] and c["target"] is not None
+            and resolved_text(ta, c["value"], c["node"]) == norm(c["target"]) for c in cn) \
+            and all(c["iter"] is not None and any(c["iter"] is d["iter"] for d in cn) and not c["conds"] for c in ca)
     ctx.ob("TNT-tolist", ta, norm(tbl[0]) if tbl else "pa.table(data, names=self.colnames)", tbl[0] if tbl else ta.node, ok,
            "arrays are labelled with colnames in the order they were built" if ok else "arrow table is not labelled with self.colnames", nontrivial=False)
     tl = repo.fn(f"{DF}.to_list_of_dicts")
     rows = [n for n in body_nodes(tl.node) if isinstance(n, ast.Assign) and isinstance(n.value, ast.ListComp)
             and "range(" in norm(n.value) and "nrow" in norm(n.value)]
+    if not rows or not [n for n in body_nodes(tl.node) if isinstance(n, ast.Assign) and isinstance(n.targets[0], ast.Subscript)
+                        and isinstance(n.targets[0].value, ast.Subscript)]:
+        raise AnalysisError(f"{tl.qualname}: the records are not built as one dict per range(nrow) filled by data[i][colname] = value; "
+                            f"the one-record-per-row / one-field-per-column rules have nothing to judge")
     ctx.ob("TNT-tolist", tl, norm(rows[0]) if rows else "data = [{} for i in range(self.nrow)]", rows[0] if rows else tl.node, bool(rows),
            "one record per row" if rows else "records are not created one per row", nontrivial=False, clause="one record per row")
     st = [n for n in body_nodes(tl.node) if isinstance(n, ast.Assign) and isinstance(n.targets[0], ast.Subscript)
